@@ -21,6 +21,7 @@ CONSTANTS Tokens,      \* function token name -> [id, ud, hosts, expire, timeout
           Clients,     \* function client name -> [tok, addr]
           MaxClients0, \* max_clients at construction
           ServerAddrs, \* number of public addresses (1..ServerAddrs)
+          TokenTable,  \* size of the table binding used tokens to addresses (code: NETCODE_MAX_CLIENTS * 2 = 2048, server.rs:51)
           TokenSingleUse \* intended design (TRUE): a token whose handshake completed is not honoured again.  The code honours
                          \* it again from the same address (FALSE, known finding D18: replayed handshakes re-establish sessions)
 
@@ -73,6 +74,22 @@ Emit(w, d, org) ==
         d1 == [d EXCEPT !.emit = k, !.org = org, !.h = h]
     IN [w |-> [w EXCEPT !.net = Append(@, d1)], d |-> d1]
 
+\* connect_token_entries (server.rs:51, 175-207): slots are filled in index order and never emptied, so the used slots are a
+\* prefix -- a sequence of [tok, addr, time].  A token that is not in the table takes the first empty slot or, when the table
+\* is full, replaces the entry with the smallest time (lowest index among equals): from then on the replaced token is no longer
+\* bound to the address that used it first (known finding D21).
+EntryIdx(w, tok) == IF \E i \in 1..Len(w.entries) : w.entries[i].tok = tok
+                    THEN CHOOSE i \in 1..Len(w.entries) : w.entries[i].tok = tok ELSE 0
+BoundElsewhere(w, tok, a) == EntryIdx(w, tok) # 0 /\ w.entries[EntryIdx(w, tok)].addr # a
+AddEntry(w, tok, a) ==
+    IF EntryIdx(w, tok) # 0 THEN w.entries
+    ELSE LET e == [tok |-> tok, addr |-> a, time |-> w.now] IN
+         IF Len(w.entries) < TokenTable THEN Append(w.entries, e)
+         ELSE LET oldest == CHOOSE i \in 1..Len(w.entries) :
+                                /\ \A j \in 1..Len(w.entries) : w.entries[i].time <= w.entries[j].time
+                                /\ \A j \in 1..(i - 1) : w.entries[j].time > w.entries[i].time
+              IN [w.entries EXCEPT ![oldest] = e]
+
 ConnIdx(w, pred(_)) == IF \E i \in 1..Len(w.slots) : w.slots[i].used /\ pred(w.slots[i])
                        THEN CHOOSE i \in 1..Len(w.slots) : w.slots[i].used /\ pred(w.slots[i]) /\
                                 \A j \in 1..Len(w.slots) : (w.slots[j].used /\ pred(w.slots[j])) => i <= j
@@ -120,9 +137,9 @@ HandleRequest(w, a, d) ==
     IF ~RequestOK(w, d) THEN [w |-> w, res |-> NoRes, reply |-> NoD]
     ELSE LET T == Tokens[d.tok] IN
     IF ByAddr(w, a) # 0 \/ ById(w, T.id) # 0 THEN [w |-> w, res |-> NoRes, reply |-> NoD]
-    ELSE IF d.tok \in DOMAIN w.entries /\ w.entries[d.tok] # a THEN [w |-> w, res |-> NoRes, reply |-> NoD]
+    ELSE IF BoundElsewhere(w, d.tok, a) THEN [w |-> w, res |-> NoRes, reply |-> NoD]
     ELSE IF TokenSingleUse /\ d.tok \in w.consumed THEN [w |-> w, res |-> NoRes, reply |-> NoD]
-    ELSE LET w1 == [w EXCEPT !.entries = Put(@, d.tok, a)] IN
+    ELSE LET w1 == [w EXCEPT !.entries = AddEntry(w, d.tok, a)] IN
     IF NConn(w1) >= w1.maxc
     THEN LET e == Emit([w1 EXCEPT !.pending = [x \in (DOMAIN @) \ {a} |-> @[x]], !.gseq = @ + 1],
                        MkD("Denied", "s2c:" \o d.tok, d.tok, w1.gseq, a, X0), "S")
